@@ -241,6 +241,31 @@ func runC05(e *core.Env, n int) {
 				break
 			}
 		}
+		// (iii-b) receives issued after the end of the stream was reported yield the final status again: a failure
+		// never turns into a clean end or a message, a clean end never into a failure (only where the context
+		// was alive throughout, so that no receive can owe its answer to a cancellation)
+		if tCancel < 0 && !endedBeforePost && run.Ctx.Err() == nil {
+			var first error
+			for _, ev := range append(run.Events(), post...) {
+				if (ev.Who != "cr" && ev.Who != "post") || ev.Op != "recv" || ev.Call || ev.Pan != "" {
+					continue
+				}
+				switch {
+				case first == nil:
+					first = ev.Err
+				case first == io.EOF && ev.Err != io.EOF:
+					e.Violate(sig+"/recv-after-end/failure-after-clean-end", fmt.Sprintf("a receive had reported the clean end of the stream; a later receive returned %v", ev.Err), w(""))
+					first = nil
+				case first != io.EOF && (ev.Err == nil || ev.Err == io.EOF):
+					e.Violate(sig+"/recv-after-end/clean-end-after-failure", fmt.Sprintf("a receive had reported the final status (%v); a later receive returned %v", first, ev.Err), w(""))
+					first = nil
+				}
+				if first == nil && ev.Err != nil {
+					first = ev.Err
+				}
+			}
+			e.Count("recv_after_end_judged", 1)
+		}
 		// delivery and status still hold for these programs where no cancellation was involved
 		if tCancel < 0 && c.Inproc {
 			for _, p := range deliveryOracle(run) {
